@@ -9,6 +9,7 @@ import (
 	"context"
 	"crypto/tls"
 	"errors"
+	"fmt"
 	"os"
 	"sync"
 	"testing"
@@ -97,6 +98,49 @@ func TestDialPolicyDoH(t *testing.T) {
 						ctx, cancel := context.WithTimeout(context.Background(), 10*time.Second)
 						d.Dial(ctx, "tcp", addr, tc)
 						cancel()
+						// the caller's configuration is the caller's: Dial works on copies
+						if tc != nil {
+							if tc.ServerName != csn || (cech == "nil") != (tc.EncryptedClientHelloConfigList == nil) ||
+								(cech != "nil" && !bytes.Equal(tc.EncryptedClientHelloConfigList, polLists[cech])) {
+								w.Write(Ev{"case": Ev{"host": host, "form": form, "csn": csn, "cech": cech, "req": req}, "calls": calls, "ok": false,
+									"why": fmt.Sprintf("Dial modified the caller's tls.Config: ServerName %q, ECH list %s", tc.ServerName, classifyECH(tc.EncryptedClientHelloConfigList, "")), "wantsn": csn})
+								continue
+							}
+						}
+						// the same Dialer and the same caller configuration used again for another host: nothing of the first call sticks
+						if host != "plain.example" {
+							mu.Lock()
+							n0 := len(calls)
+							mu.Unlock()
+							ctx2, cancel2 := context.WithTimeout(context.Background(), 10*time.Second)
+							d.Dial(ctx2, "tcp", "plain.example", tc)
+							cancel2()
+							mu.Lock()
+							second := append([]Ev{}, calls[n0:]...)
+							calls = calls[:n0]
+							mu.Unlock()
+							want2 := "plain.example"
+							if csn != "" {
+								want2 = csn
+							}
+							bad2 := ""
+							for _, c := range second {
+								wantE := "nil"
+								if cech != "nil" {
+									wantE = cech
+								}
+								if c["addr"] != "10.1.0.1:443" || c["sn"] != want2 || c["ech"] != wantE {
+									bad2 = fmt.Sprintf("second Dial (plain.example) with the same Dialer and config: attempt %v, want 10.1.0.1:443 ServerName %q ECH %s", c, want2, wantE)
+								}
+							}
+							if req && cech == "nil" && len(second) > 0 {
+								bad2 = "second Dial (plain.example, RequireECH, no list anywhere) made an attempt"
+							}
+							if bad2 != "" {
+								w.Write(Ev{"case": Ev{"host": host, "form": form, "csn": csn, "cech": cech, "req": req}, "calls": second, "ok": false, "why": bad2, "wantsn": want2})
+								continue
+							}
+						}
 						wantSN := host
 						if csn != "" {
 							wantSN = csn
